@@ -148,16 +148,31 @@ example : scan (fun (n : Nat) => if n == 0 then some Status.na else if n == 1 th
 section ModelledLints
 open Zl.Names
 
-/-- the eight modelled name lints (ZlModel/Names.lean) return the same verdicts on every permutation of the
+/-- the fourteen modelled name lints (ZlModel/Names.lean) return the same verdicts on every permutation of the
     SAN / IAN name lists -/
 theorem names_verdicts_perm (v v' : View) (hcn : v'.cn = v.cn) (hip : v'.cnIsIP = v.cnIsIP)
     (hd : v.dns.Perm v'.dns) (hu : v.uris.Perm v'.uris) (hid : v.ianDns.Perm v'.ianDns) (hiu : v.ianUris.Perm v'.ianUris) :
     verdicts v = verdicts v' := by
   simp only [verdicts, rfcLabelTooLong, brLabelTooLong, rfcEmptyLabel, brEmptyLabel, sanSpaceDNS, ianSpaceDNS,
-    sanUriNotIA5, ianUriNotIA5, cnJudged, hcn, hip,
+    sanUriNotIA5, ianUriNotIA5, wildcardOnlyLeft, leftLabelWildcard, underscoreInDNS, sanNullChar, sanStartsWithPeriod,
+    sanWildcardNotFirst, cnJudged, hcn, hip,
     anyFinding_perm labelTooLong Status.error hd, anyFinding_perm hasEmptyLabel Status.error hd,
     anyFinding_perm isSpace Status.error hd, anyFinding_perm isSpace Status.error hid,
-    anyFinding_perm notAscii Status.error hu, anyFinding_perm notAscii Status.error hiu]
+    anyFinding_perm notAscii Status.error hu, anyFinding_perm notAscii Status.error hiu,
+    anyFinding_perm wildcardNotInLeftLabel Status.error hd, anyFinding_perm wildcardInLeftLabelIncorrect Status.error hd,
+    anyFinding_perm hasUnderscore Status.error hd, anyFinding_perm hasNull Status.error hd,
+    anyFinding_perm startsWithPeriod Status.error hd, anyFinding_perm wildcardNotFirst Status.error hd]
+
+/-- `e_san_wildcard_not_first` and `e_dnsname_wildcard_only_in_left_label` / `…left_label_wildcard_correct` read the
+    same names differently; what each means, stated outright -/
+theorem wildcardNotFirst_iff (d : Bytes) : wildcardNotFirst d = true ↔ 42 ∈ d.drop 1 := by
+  unfold wildcardNotFirst; simp
+
+theorem startsWithPeriod_iff (d : Bytes) : startsWithPeriod d = true ↔ ∃ rest, d = 46 :: rest := by
+  unfold startsWithPeriod
+  cases d with
+  | nil => simp
+  | cons c cs => simp
 
 end ModelledLints
 
